@@ -91,6 +91,9 @@ class _ShapeOnly:
         self.shape = (n, p)
         self.data = np.zeros((2, 2))
         self.dims = ("sample", "feature")
+        self.sizes = {"sample": n, "feature": p}
+        self.ndim = 2
+        self.dtype = np.dtype("float64")
 
 
 class _Stop(Exception):
